@@ -293,10 +293,22 @@ class Tree:
         self.files[spd + di + "/direct_url.json"] = json.dumps({"url": "file:///x", "dir_info": {"editable": editable}})
         stem = rnd.choice(["__editable__.%s-%s" % (norm, ver), "_%s" % norm, norm, "__editable__.%s" % raw, "unrelated_%s" % norm])
         self.tags.append("pth:" + stem.split(norm)[0].split(raw)[0])
-        content = rnd.choice(["", "# comment\n", "import something; x = 1\n"]) + "@CASE@/" + src.rstrip("/") + "\n"
+        lead = rnd.choice(["", "# comment\n", "import something; x = 1\n"])
+        content = lead + "@CASE@/" + src.rstrip("/") + "\n"
+        model_content = content
+        if where != "inside" and rnd.random() < 0.3:
+            # the .pth line spells the checkout through a symbolic link (~/src -> /data/src): the
+            # install is the one at the link's target (the model is given the resolved spelling)
+            top = src.split("/")[0]
+            link = "lnk_" + top
+            self.meta.setdefault("symlinks", [])
+            if [link, top] not in self.meta["symlinks"]:
+                self.meta["symlinks"].append([link, top])
+            content = lead + "@CASE@/" + link + "/" + src.rstrip("/").split("/", 1)[1] + "\n"
+            self.tags.append("pth:through-symlink")
         self.files[spd + stem + ".pth"] = content
         self.meta["dists"].append({"name": di, "entry": ep, "editable": editable})
-        self.meta["pths"].append({"stem": stem, "content": content})
+        self.meta["pths"].append({"stem": stem, "content": model_content})
 
 
 def selected_files(files):
@@ -371,6 +383,9 @@ def run_trees(seeds, corpus=()):
                 os.makedirs(os.path.dirname(p), exist_ok=True)
                 with open(p, "w", newline="") as f:
                     f.write(text.replace("@CASE@", case_dir))
+            for link, target in tree.meta.get("symlinks", []):
+                if not os.path.lexists(os.path.join(case_dir, link)):
+                    os.symlink(os.path.join(case_dir, target), os.path.join(case_dir, link))
             tests = selected_files(tree.files)
             ops = [{"op": "scan", "path": os.path.join(case_dir, "ws")}, {"op": "dump"}]
             ops += [{"op": "available", "path": os.path.join(case_dir, r)} for r in tests if not r.endswith("conftest.py")]
